@@ -457,6 +457,9 @@ class RSocketBase(RSocket, RSocketInternal):
 
         await self._stop_tasks()
 
+        # requests issued after the connection was lost have no receiver left to fail them
+        self.stop_all_streams()
+
         await self._close_transport()
 
     async def _stop_tasks(self):
